@@ -16,7 +16,7 @@ from checks import e2e_common
 import importlib
 c03check = importlib.import_module("checks.C03")  # shares the harness, the system model and the oracle plumbing
 
-THEOREMS = ["IstioModel.C05.Theorems", "IstioModel.C05.RegTheorems"]
+THEOREMS = ["IstioModel.C05.Theorems", "IstioModel.C05.ReconnectTheorems", "IstioModel.C05.RegTheorems"]
 
 
 def warm(ctx):
